@@ -197,6 +197,62 @@ def zero_stripping_direction(chk):
     chk.floor('zero-skipping loops classified', n, 15)
 
 
+def pubexp_width_gate(chk):
+    """br_rsa_iXX_compute_pubexp returns the public exponent only when it fits 32 bits (0 otherwise).  The gate compares the *encoded* bit
+    length returned by br_iXX_bit_length ((word index << s) + bits in the top word) with a constant: that constant must be
+    enc(32) + 1 for the word size of the implementation (s is read from the bit_length function itself), and the value is assembled
+    from the words covering bits 0..31 (shifts k*w for k*w < 32)."""
+    from .. import wmw
+    R = 'rsa-pubexp-32-bit-gate'
+    P = wmw.program()
+    n = 0
+    for impl, w in (('i31', 31), ('i15', 15)):
+        bl = [F for (un, fn), F in P.static.items() if fn == 'br_%s_bit_length' % impl]
+        gp = [F for (un, fn), F in P.static.items() if fn == 'get_pubexp' and F.file().endswith('rsa_%s_pubexp.c' % impl)]
+        if not bl or not gp:
+            raise AnalysisBroken('br_%s_bit_length / get_pubexp (%s) vanished' % (impl, impl))
+        B, G = bl[0], gp[0]
+        sh = [i['ops'][1]['v'] for i in B.insts.values() if i['op'] == 'shl' and i['ops'][1]['k'] == 'c']
+        if len(sh) != 1:
+            raise AnalysisBroken('br_%s_bit_length: expected one constant shift (word index scaling), found %s' % (impl, sh))
+        want = ((32 // w) << sh[0]) + 32 % w + 1
+        def is_bl(o):
+            o = G.strip_casts(o)
+            return o['k'] == 'i' and G.insts[o['v']]['op'] == 'call' and G.insts[o['v']].get('callee') == 'br_%s_bit_length' % impl
+        gates = []      # (inst, relation of bit_length to the constant, constant operand); LT/LE are macros over GT/GE with swapped operands
+        for i in G.insts.values():
+            if i['op'] == 'call' and i.get('callee') in ('LT', 'LE', 'GT', 'GE') and len(i['ops']) >= 2:
+                rel = {'LT': '<', 'LE': '<=', 'GT': '>', 'GE': '>='}[i['callee']]
+                if is_bl(i['ops'][0]):
+                    gates.append((i, rel, i['ops'][1]))
+                elif is_bl(i['ops'][1]):
+                    gates.append((i, {'<': '>', '<=': '>=', '>': '<', '>=': '<='}[rel], i['ops'][0]))
+        n += 1
+        inst = 'get_pubexp (%s): exponent kept iff encoded bit length < enc(32)+1 = %d' % (impl, want)
+        if not gates:
+            chk.violation(R, inst, G.where(), 'no comparison of br_%s_bit_length() gates the result' % impl, key='%s %s' % (R, impl))
+        else:
+            g, rel, k = gates[0]
+            lim = None if k['k'] != 'c' else (k['v'] if rel == '<' else k['v'] + 1 if rel == '<=' else None)
+            if lim == want:
+                chk.ok(R, inst, G.where(g))
+            else:
+                chk.violation(R, inst, G.where(g), 'the gate is bit_length %s %s: exponents of %s bits are %s' % (
+                    rel, k.get('v'), 'exactly 32' if (lim or 0) < want else 'more than 32', 'rejected' if (lim or 0) < want else 'truncated and returned'),
+                    key='%s %s' % (R, impl))
+        # word assembly
+        shifts = sorted(set(i['ops'][1]['v'] for i in G.insts.values() if i['op'] == 'shl' and i['ops'][1]['k'] == 'c'
+                            and G.strip_casts(i['ops'][0])['k'] == 'i' and G.insts[G.strip_casts(i['ops'][0])['v']]['op'] == 'load'))
+        wantsh = [k * w for k in range(1, 4) if k * w < 32]
+        n += 1
+        inst = 'get_pubexp (%s): the value is assembled from words at bit offsets 0, %s' % (impl, ', '.join(map(str, wantsh)))
+        if shifts == wantsh:
+            chk.ok(R, inst, G.where())
+        else:
+            chk.violation(R, inst, G.where(), 'word shifts are %s' % shifts, key='%s %s words' % (R, impl))
+    chk.floor('pubexp gate instances', n, 4)
+
+
 def run(tier):
     chk = report.Check('C10', tier,
                        'Static rejection obligations for the RSA functions of all four implementations (i15, i31, i32, i62), the shared '
@@ -228,6 +284,7 @@ def run(tier):
     oblig.run_conjuncts(chk, conj, 'rsa-conjunct')
     keygen_forced_bits(chk)
     zero_stripping_direction(chk)
+    pubexp_width_gate(chk)
     chk.floor("C10 obligations", len(chk.obls), 90)
     from .. import lints
     lints.length_is_boolean(chk, ['src/rsa/'])
